@@ -28,7 +28,7 @@ pub const PASSES: &[&str] = &[
 
 fn loop_cfg() -> LoopCfg {
   let ex = |flag: &str| crate::engine::findings::excluded("C02", flag);
-  LoopCfg { effects_in_loop: !ex("effects_in_loop"), derived_iv: !ex("derived_iv"), possibly_zero_divisor: !ex("possibly_zero_divisor"), guard_as_result: !ex("guard_as_result"), max_loops: 4 }
+  LoopCfg { effects_in_loop: !ex("effects_in_loop"), derived_iv: !ex("derived_iv"), possibly_zero_divisor: !ex("possibly_zero_divisor"), guard_as_result: !ex("guard_as_result"), compare_after_add: !ex("compare_after_add"), max_loops: 4 }
 }
 
 fn plans(art: &Value) -> Vec<Plan> {
